@@ -317,7 +317,12 @@ def decide(prop, tier, seed, replay=None):
     for sid, info in by_sid.items():
         err = info['err'] or ''
         key = err.split(':')[0]
-        if key in ('budget', 'watchdog-in-bubus', 'deadlock') and 'rest' in relevant:
+        if key == 'watchdog-in-bubus' and 'rest' in relevant:
+            # the library froze the event loop on this scenario (a synchronous spin inside bubus that the watchdog had to
+            # break after 20 s of real time): nothing is processed any more - the scenario is the concrete failing input
+            violations.append((sid, {'line': 0, 'prop': prop, 'clause': 'eventLoopFrozen', 'sigs': [],
+                                     'detail': 'a synchronous spin inside bubus froze the event loop: ' + err[:300]}))
+        elif key in ('budget', 'watchdog-in-bubus', 'deadlock') and 'rest' in relevant:
             diverged.append((sid, {'line': 0, 'why': f'rest: the real system never comes to rest ({key}: ' +
                                    {'budget': 'loop-iteration budget exhausted while virtual time stands still or work never ends',
                                     'watchdog-in-bubus': 'synchronous spin inside bubus', 'deadlock': 'no runnable task and no timer'}[key] + ')',
@@ -330,7 +335,8 @@ def decide(prop, tier, seed, replay=None):
     if violations:
         sid, v = violations[0]
         info = by_sid[sid]
-        sc_min = families.shrink(prop, info['sc'], info['cfg'], v, known_sigs) if not replay else info['sc']
+        sc_min = (families.shrink(prop, info['sc'], info['cfg'], v, known_sigs)
+                  if not replay and v['clause'] != 'eventLoopFrozen' else info['sc'])
         replay_path = os.path.join('replays', f"{prop}-{hashlib.sha256(json.dumps(sc_min, sort_keys=True).encode()).hexdigest()[:12]}.json")
         json.dump({'property': prop, 'kind': 'violation', 'clause': v['clause'], 'detail': v['detail'], 'sigs': v['sigs'],
                    'scenario': sc_min, 'cfg': info['cfg'], 'original_scenario': info['sc'], 'found_in': sid,
